@@ -866,18 +866,22 @@ func (w *Writer) OpenStream(ref Reference, dict Dict, filters ...Filter) (io.Wri
 		streamBody = enc
 	}
 
+	var names []Name
+	var parms []Dict
 	for _, filter := range filters {
 		streamBody, err = filter.Encode(w.meta.Version, streamBody)
 		if err != nil {
 			return nil, err
 		}
 
-		name, parms, err := filter.Info(w.meta.Version)
+		name, p, err := filter.Info(w.meta.Version)
 		if err != nil {
 			return nil, err
 		}
-		appendFilter(streamDict, name, parms)
+		names = append(names, name)
+		parms = append(parms, p)
 	}
+	prependFilters(streamDict, names, parms)
 
 	w.inStream = true
 	opened = true
